@@ -323,6 +323,7 @@ def plan(tier):
     L = 5 if tier == 'quick' else 6
     for a in range(len(HDR_TOKENS)):
         units.append(('hdr-strings', a, L))
+    units.append(('stream-kinds',))
     R = 6 if tier == 'quick' else 7
     for a in range(len(RAW)):
         for b in range(len(RAW)):
@@ -367,9 +368,128 @@ def OPT_UNITS(tier):
     return keep
 
 
+STREAM_KINDS = ['bytesio', 'buffered', 'file', 'gzip', 'bz2', 'lzma',
+                'duck', 'bytesio-subclass']
+
+
+class _Duck(object):
+    """Not an io class at all: just the methods the loader uses."""
+    def __init__(self, data):
+        self._s = io.BytesIO(data)
+        self.closed = False
+
+    def read(self, *a):
+        return self._s.read(*a)
+
+    def seek(self, *a):
+        return self._s.seek(*a)
+
+    def tell(self):
+        return self._s.tell()
+
+    def close(self):
+        self.closed = True
+        self._s.close()
+
+    def __enter__(self):
+        return self
+
+    def __exit__(self, *a):
+        self.close()
+
+
+def open_kind(data, kind):
+    import bz2
+    import gzip
+    import lzma
+    import tempfile
+    if kind == 'bytesio':
+        return io.BytesIO(data)
+    if kind == 'bytesio-subclass':
+        return TrackedStream(data)
+    if kind == 'buffered':
+        return io.BufferedReader(io.BytesIO(data), buffer_size=32)
+    if kind == 'file':
+        f = tempfile.TemporaryFile()
+        f.write(data)
+        f.seek(0)
+        return f
+    if kind == 'gzip':
+        return gzip.GzipFile(fileobj=io.BytesIO(gzip.compress(data)))
+    if kind == 'bz2':
+        return bz2.BZ2File(io.BytesIO(bz2.compress(data)))
+    if kind == 'lzma':
+        return lzma.LZMAFile(io.BytesIO(lzma.compress(data)))
+    return _Duck(data)
+
+
+def check_stream_kind(data, kind):
+    """from_stream(stream of this kind): same outcome as from_bytes, and
+    the stream the caller handed over is closed afterwards."""
+    from mc.domsnap import fsnap
+    try:
+        want = ('tree', fsnap(DiffX.from_bytes(data)))
+    except BaseDiffXError as e:
+        want = ('error', type(e).__name__)
+    except Exception as e:
+        want = ('other', type(e).__name__)
+    st = open_kind(data, kind)
+    try:
+        got = ('tree', fsnap(DiffX.from_stream(st)))
+    except BaseDiffXError as e:
+        got = ('error', type(e).__name__)
+    except Exception as e:
+        got = ('other', '%s:%s' % (type(e).__name__, site_of(e)))
+    v = []
+    if got != want and want[0] != 'other':
+        v.append(('from-stream-differs-from-from-bytes:%s' % kind,
+                  '%s stream: %r, from_bytes: %r' % (kind, got[:1] + (
+                      str(got[1])[:80],), want[:1] + (str(want[1])[:80],))))
+    if not st.closed:
+        v.append(('stream-left-open:%s:%s' % (kind, got[0]),
+                  'DiffX.from_stream left the %s stream open (%s)'
+                  % (kind, got[0])))
+        try:
+            st.close()
+        except Exception:
+            pass
+    return v
+
+
+def kind_inputs(tier):
+    out = []
+    for name, data in base_files(tier):
+        out.append((name, data))
+        out.append((name + ':cut', data[:len(data) * 2 // 3]))
+        out.append((name + ':badheader', data.replace(b'#.change:',
+                                                      b'#.chnge:', 1)))
+        out.append((name + ':badlength', data.replace(b'length=',
+                                                      b'length=9', 1)))
+    out.append(('empty', b''))
+    out.append(('garbage', b'\x00\xff garbage\n'))
+    return out
+
+
 def run_unit(unit, tier):
     acc = Acc()
     signal.signal(signal.SIGALRM, _alarm)
+    if unit[0] == 'stream-kinds':
+        for name, data in kind_inputs(tier):
+            for kind in STREAM_KINDS:
+                viols = check_stream_kind(data, kind)
+                acc.evals += 1
+                acc.states += 1
+                acc.transitions += 2
+                acc.validated += 1
+                acc.nontrivial += 1
+                for key, msg in viols:
+                    acc.violation(key, '%s (input %s)' % (msg, name),
+                                  {'kind': 'stream-kind',
+                                   'data': to_jsonable(data),
+                                   'stream': kind})
+                acc.outcome('ok' if not viols else 'violation')
+        acc.sample({'stream_kinds': STREAM_KINDS}, 1)
+        return acc
 
     def one(data, payload, label=''):
         signal.setitimer(signal.ITIMER_REAL, WATCHDOG_S)
@@ -489,6 +609,9 @@ def _run_unit_body(unit, tier, acc, one):
 
 
 def replay(payload):
+    if payload.get('kind') == 'stream-kind':
+        return [{'key': k, 'msg': m} for k, m in check_stream_kind(
+            from_jsonable(payload['data']), payload['stream'])]
     if payload.get('kind') == 'scale':
         label, data = scale_inputs('quick')[payload['index']]
     elif payload.get('kind') != 'data':
